@@ -108,25 +108,26 @@ theorem convection_one_dropped (c : Cfg ℂ) (hD : c.D = 1) (hN : 0 < c.N) (scal
     `û = rfftnM 1 N x`, fraction 2/3, retained `h ≤ Kc`: the `h`-th DFT coefficient of
     `(ifft(mask·û))²` is the LINEAR convolution of the band-truncated spectrum of `x` with itself
     (times `1/N`, the normalisation of the unnormalised forward transform). -/
-theorem dft_sq_nifft_rfft (c : Cfg ℂ) (hD : c.D = 1) (hp : c.fp = 2) (hq : c.fq = 3) (hN : 0 < c.N)
+theorem dft_sq_nifft_rfft_of_cutoff (c : Cfg ℂ) (hD : c.D = 1) (hq : c.fq ≠ 0) (hK : 3 * Kc c < (c.N : ℤ)) (hN : 0 < c.N)
     (x : Array ℂ) (hx : IsRealField c.N x) (h : ℤ) (hh : |h| ≤ Kc c) :
     dft c.N (tab c.N fun j => (nifft c (rfftnM 1 c.N x)).getD j 0 * (nifft c (rfftnM 1 c.N x)).getD j 0) h
       = (1 / (c.N : ℂ)) * ∑ m ∈ Finset.Icc (-(Kc c)) (Kc c),
           trunc (Kc c) (dft c.N x) m * trunc (Kc c) (dft c.N x) (h - m) := by
-  have hq0 : c.fq ≠ 0 := by omega
-  obtain ⟨h3, h2⟩ := Kc_two_thirds c hp hq
+  have hq0 : c.fq ≠ 0 := hq
+  have h3 := hK
+  have h2 := two_Kc_lt_of_three c hK
   have hb := nifft_bandLimited c hD hq0 hN (rfftnM 1 c.N x)
   rw [dft_mul_no_alias' c.N hN (Kc c) h3 _ _ hb hb h hh]
   simp only [trunc_dft_nifft_rfft c hD hq0 hN h2 x hx]
 
-/-- **A6. MAIN THEOREM (conservative single-channel convection, 1-D, fraction 2/3).**
+/-- **A6. MAIN THEOREM (conservative single-channel convection, 1-D, cut-off `3·Kc < N`, e.g. fraction 2/3).**
     For a real state `x` on `N ≥ 1` points, `û = rfftnM 1 N x`, at every stored mode `h ≤ N/2`:
 
     * if `h` is retained (`mask c h = 1`) the output is `−scale·½·(i s h)` times `1/N` times the
       alias-free linear convolution `Σ_{m=−Kc}^{Kc} X_m X_{h−m}` of the band-truncated spectrum
       `X_m = [|m| ≤ Kc]·dft N x m`, i.e. the coefficient of `−b·½·∂ₓ (P_K u)²`;
     * otherwise the output is `0`. -/
-theorem convection_one_alias_free (c : Cfg ℂ) (hD : c.D = 1) (hp : c.fp = 2) (hq : c.fq = 3)
+theorem convection_one_alias_free_of_cutoff (c : Cfg ℂ) (hD : c.D = 1) (hq : c.fq ≠ 0) (hK : 3 * Kc c < (c.N : ℤ))
     (hN : 0 < c.N) (scale : ℂ) (x : Array ℂ) (hx : IsRealField c.N x) (h : ℕ) (hh : h ≤ c.N / 2) :
     (mask c h = 1 →
       at2 (convection c 1 scale true true #[rfftnM 1 c.N x]) 0 h
@@ -135,16 +136,16 @@ theorem convection_one_alias_free (c : Cfg ℂ) (hD : c.D = 1) (hp : c.fp = 2) (
               trunc (Kc c) (dft c.N x) m * trunc (Kc c) (dft c.N x) ((h : ℤ) - m)))
     ∧ (mask c h = 0 →
       at2 (convection c 1 scale true true #[rfftnM 1 c.N x]) 0 h = 0) := by
-  have hq0 : c.fq ≠ 0 := by omega
+  have hq0 : c.fq ≠ 0 := hq
   refine ⟨fun hm => ?_, fun hm => convection_one_dropped c hD hN scale _ h hh hm⟩
   have hk : (h : ℤ) ≤ Kc c := (mask_eq_one_iff c hD hq0 h).mp hm
   have hk' : |(h : ℤ)| ≤ Kc c := by rwa [abs_of_nonneg (by positivity)]
   rw [convection_one_readoff c hD hN scale _ h hh, hm,
-    dft_sq_nifft_rfft c hD hp hq hN x hx (h : ℤ) hk']
+    dft_sq_nifft_rfft_of_cutoff c hD hq hK hN x hx (h : ℤ) hk']
   ring
 
 /-- A6 in `if`-form, the retention test written as `h ≤ Kc` -/
-theorem convection_one_alias_free' (c : Cfg ℂ) (hD : c.D = 1) (hp : c.fp = 2) (hq : c.fq = 3)
+theorem convection_one_alias_free_of_cutoff' (c : Cfg ℂ) (hD : c.D = 1) (hq : c.fq ≠ 0) (hK : 3 * Kc c < (c.N : ℤ))
     (hN : 0 < c.N) (scale : ℂ) (x : Array ℂ) (hx : IsRealField c.N x) (h : ℕ) (hh : h ≤ c.N / 2) :
     at2 (convection c 1 scale true true #[rfftnM 1 c.N x]) 0 h
       = if (h : ℤ) ≤ Kc c then
@@ -152,8 +153,8 @@ theorem convection_one_alias_free' (c : Cfg ℂ) (hD : c.D = 1) (hp : c.fp = 2) 
             ((1 / (c.N : ℂ)) * ∑ m ∈ Finset.Icc (-(Kc c)) (Kc c),
               trunc (Kc c) (dft c.N x) m * trunc (Kc c) (dft c.N x) ((h : ℤ) - m))
         else 0 := by
-  have hq0 : c.fq ≠ 0 := by omega
-  have := convection_one_alias_free c hD hp hq hN scale x hx h hh
+  have hq0 : c.fq ≠ 0 := hq
+  have := convection_one_alias_free_of_cutoff c hD hq hK hN scale x hx h hh
   split_ifs with hk
   · exact this.1 ((mask_eq_one_iff c hD hq0 h).mpr hk)
   · exact this.2 ((mask_eq_zero_iff c hD hq0 h).mpr hk)
@@ -184,11 +185,11 @@ theorem polyEval_cubic (c3 y : ℂ) : polyEval [0, 0, 0, c3] y = c3 * (y * y * y
 theorem dft_self_tab (N : ℕ) (u : Array ℂ) (h : ℤ) : dft N (tab N fun j => u.getD j 0) h = dft N u h :=
   dft_congr N _ _ (fun _ hj => DFT.tab_getD _ _ _ _ hj) h
 
-/-- **A7 (quadratic polynomial, fraction 2/3).**  For a real state `x`, at a retained stored mode
+/-- **A7 (quadratic polynomial, cut-off `3·Kc < N`, e.g. fraction 2/3).**  For a real state `x`, at a retained stored mode
     the output of `PolynomialNonlinearFun` with coefficients `[c0, c1, c2]` is
     `c0·N·[h = 0] + c1·X_h + c2·(1/N) Σ_{m=−Kc}^{Kc} X_m X_{h−m}` (`X` = band-truncated spectrum of
     `x`): the coefficients of `c0 + c1·P_K u + c2·(P_K u)²`, alias-free; at a dropped mode it is `0`. -/
-theorem polynomial_quadratic_alias_free (c : Cfg ℂ) (hD : c.D = 1) (hp : c.fp = 2) (hq : c.fq = 3)
+theorem polynomial_quadratic_alias_free_of_cutoff (c : Cfg ℂ) (hD : c.D = 1) (hq : c.fq ≠ 0) (hK : 3 * Kc c < (c.N : ℤ))
     (hN : 0 < c.N) (c0 c1 c2 : ℂ) (x : Array ℂ) (hx : IsRealField c.N x) (h : ℕ) (hh : h ≤ c.N / 2) :
     (mask c h = 1 →
       at2 (polynomial c 1 [c0, c1, c2] #[rfftnM 1 c.N x]) 0 h
@@ -196,8 +197,9 @@ theorem polynomial_quadratic_alias_free (c : Cfg ℂ) (hD : c.D = 1) (hp : c.fp 
           + c2 * ((1 / (c.N : ℂ)) * ∑ m ∈ Finset.Icc (-(Kc c)) (Kc c),
               trunc (Kc c) (dft c.N x) m * trunc (Kc c) (dft c.N x) ((h : ℤ) - m)))
     ∧ (mask c h = 0 → at2 (polynomial c 1 [c0, c1, c2] #[rfftnM 1 c.N x]) 0 h = 0) := by
-  have hq0 : c.fq ≠ 0 := by omega
-  obtain ⟨h3, h2⟩ := Kc_two_thirds c hp hq
+  have hq0 : c.fq ≠ 0 := hq
+  have h3 := hK
+  have h2 := two_Kc_lt_of_three c hK
   rw [polynomial_one_readoff c hD hN _ _ h hh]
   refine ⟨fun hm => ?_, fun hm => by rw [hm, zero_mul]⟩
   have hk : (h : ℤ) ≤ Kc c := (mask_eq_one_iff c hD hq0 h).mp hm
@@ -210,7 +212,7 @@ theorem polynomial_quadratic_alias_free (c : Cfg ℂ) (hD : c.D = 1) (hp : c.fp 
     intro j _
     exact polyEval_quadratic c0 c1 c2 _
   rw [hm, one_mul, e, dft_add, dft_add, dft_smul, dft_smul, dft_const c.N hN, dft_self_tab,
-    dft_nifft_rfft c hD hq0 hN h2 x hx (h : ℤ) hk', dft_sq_nifft_rfft c hD hp hq hN x hx (h : ℤ) hk']
+    dft_nifft_rfft c hD hq0 hN h2 x hx (h : ℤ) hk', dft_sq_nifft_rfft_of_cutoff c hD hq hK hN x hx (h : ℤ) hk']
   have hdvd : ((c.N : ℤ) ∣ (h : ℤ)) ↔ h = 0 := by
     constructor
     · intro hd
@@ -221,23 +223,23 @@ theorem polynomial_quadratic_alias_free (c : Cfg ℂ) (hD : c.D = 1) (hp : c.fp 
   split_ifs <;> ring
 
 /-- the cube of the band-truncated state, alias-free with the fraction 1/2 -/
-theorem dft_cube_nifft_rfft (c : Cfg ℂ) (hD : c.D = 1) (hp : c.fp = 1) (hq : c.fq = 2) (hN : 0 < c.N)
+theorem dft_cube_nifft_rfft_of_cutoff (c : Cfg ℂ) (hD : c.D = 1) (hq : c.fq ≠ 0) (hK : 4 * Kc c < (c.N : ℤ)) (hN : 0 < c.N)
     (x : Array ℂ) (hx : IsRealField c.N x) (h : ℤ) (hh : |h| ≤ Kc c) :
     dft c.N (tab c.N fun j => (nifft c (rfftnM 1 c.N x)).getD j 0 * (nifft c (rfftnM 1 c.N x)).getD j 0
         * (nifft c (rfftnM 1 c.N x)).getD j 0) h
       = (1 / (c.N : ℂ) ^ 2) * ∑ a ∈ Finset.Icc (-(Kc c)) (Kc c), ∑ b ∈ Finset.Icc (-(Kc c)) (Kc c),
           trunc (Kc c) (dft c.N x) a * trunc (Kc c) (dft c.N x) b
             * trunc (Kc c) (dft c.N x) (h - a - b) := by
-  have hq0 : c.fq ≠ 0 := by omega
-  have h4 := Kc_half c hp hq
-  have h2 : 2 * Kc c < (c.N : ℤ) := Kc_two_lt c hq0 (by omega)
+  have hq0 : c.fq ≠ 0 := hq
+  have h4 := hK
+  have h2 : 2 * Kc c < (c.N : ℤ) := two_Kc_lt_of_four c hK
   have hb := nifft_bandLimited c hD hq0 hN (rfftnM 1 c.N x)
   rw [dft_mul3_no_alias' c.N hN (Kc c) h4 _ _ _ hb hb hb h hh]
   simp only [trunc_dft_nifft_rfft c hD hq0 hN h2 x hx]
 
-/-- **A7 (cubic polynomial `[0,0,0,c3]`, fraction 1/2).**  At a retained stored mode the output is
+/-- **A7 (cubic polynomial `[0,0,0,c3]`, cut-off `4·Kc < N`, e.g. fraction 1/2).**  At a retained stored mode the output is
     `c3·(1/N²) Σ_a Σ_b X_a X_b X_{h−a−b}` over the band (alias-free, `4Kc < N`); `0` at a dropped mode. -/
-theorem polynomial_cubic_alias_free (c : Cfg ℂ) (hD : c.D = 1) (hp : c.fp = 1) (hq : c.fq = 2)
+theorem polynomial_cubic_alias_free_of_cutoff (c : Cfg ℂ) (hD : c.D = 1) (hq : c.fq ≠ 0) (hK : 4 * Kc c < (c.N : ℤ))
     (hN : 0 < c.N) (c3 : ℂ) (x : Array ℂ) (hx : IsRealField c.N x) (h : ℕ) (hh : h ≤ c.N / 2) :
     (mask c h = 1 →
       at2 (polynomial c 1 [0, 0, 0, c3] #[rfftnM 1 c.N x]) 0 h
@@ -246,7 +248,7 @@ theorem polynomial_cubic_alias_free (c : Cfg ℂ) (hD : c.D = 1) (hp : c.fp = 1)
               trunc (Kc c) (dft c.N x) a * trunc (Kc c) (dft c.N x) b
                 * trunc (Kc c) (dft c.N x) ((h : ℤ) - a - b)))
     ∧ (mask c h = 0 → at2 (polynomial c 1 [0, 0, 0, c3] #[rfftnM 1 c.N x]) 0 h = 0) := by
-  have hq0 : c.fq ≠ 0 := by omega
+  have hq0 : c.fq ≠ 0 := hq
   rw [polynomial_one_readoff c hD hN _ _ h hh]
   refine ⟨fun hm => ?_, fun hm => by rw [hm, zero_mul]⟩
   have hk : (h : ℤ) ≤ Kc c := (mask_eq_one_iff c hD hq0 h).mp hm
@@ -257,7 +259,7 @@ theorem polynomial_cubic_alias_free (c : Cfg ℂ) (hD : c.D = 1) (hp : c.fp = 1)
     apply Nonlin.tab_congr
     intro j _
     exact polyEval_cubic c3 _
-  rw [hm, one_mul, e, dft_smul, hy, dft_cube_nifft_rfft c hD hp hq hN x hx (h : ℤ) hk']
+  rw [hm, one_mul, e, dft_smul, hy, dft_cube_nifft_rfft_of_cutoff c hD hq hK hN x hx (h : ℤ) hk']
 
 /-! ### A7 — zero outside the retained band: every model function whose last step is `nfft`
 (any dimension `D`, any number of channels, any input spectrum, any channel / mode index) -/
@@ -344,5 +346,72 @@ theorem general_zero_off_band (c : Cfg ℂ) (C : ℕ) (s0 s1 s2 : ℂ) (zeroFix 
   rw [polynomial_zero_off_band c C _ uh i h hm, convection_zero_off_band c C _ true true uh i h hm,
     gradientNorm_zero_off_band c C _ zeroFix uh i h hm]
   ring
+
+
+/-! ### corollaries for the documented fractions 2/3 and 1/2 (literal `fp`, `fq`) -/
+
+/-- `dft_sq_nifft_rfft_of_cutoff` for the documented fraction 2/3 -/
+theorem dft_sq_nifft_rfft (c : Cfg ℂ) (hD : c.D = 1) (hp : c.fp = 2) (hq : c.fq = 3) (hN : 0 < c.N)
+    (x : Array ℂ) (hx : IsRealField c.N x) (h : ℤ) (hh : |h| ≤ Kc c) :
+    dft c.N (tab c.N fun j => (nifft c (rfftnM 1 c.N x)).getD j 0 * (nifft c (rfftnM 1 c.N x)).getD j 0) h
+      = (1 / (c.N : ℂ)) * ∑ m ∈ Finset.Icc (-(Kc c)) (Kc c),
+          trunc (Kc c) (dft c.N x) m * trunc (Kc c) (dft c.N x) (h - m) :=
+  dft_sq_nifft_rfft_of_cutoff c hD (by omega) (Kc_two_thirds c hp hq).1 hN x hx h hh
+
+/-- `convection_one_alias_free_of_cutoff` for the documented fraction 2/3 -/
+theorem convection_one_alias_free (c : Cfg ℂ) (hD : c.D = 1) (hp : c.fp = 2) (hq : c.fq = 3)
+    (hN : 0 < c.N) (scale : ℂ) (x : Array ℂ) (hx : IsRealField c.N x) (h : ℕ) (hh : h ≤ c.N / 2) :
+    (mask c h = 1 →
+      at2 (convection c 1 scale true true #[rfftnM 1 c.N x]) 0 h
+        = -scale * (1 / 2) * deriv c 0 h *
+            ((1 / (c.N : ℂ)) * ∑ m ∈ Finset.Icc (-(Kc c)) (Kc c),
+              trunc (Kc c) (dft c.N x) m * trunc (Kc c) (dft c.N x) ((h : ℤ) - m)))
+    ∧ (mask c h = 0 →
+      at2 (convection c 1 scale true true #[rfftnM 1 c.N x]) 0 h = 0) :=
+  convection_one_alias_free_of_cutoff c hD (by omega) (Kc_two_thirds c hp hq).1 hN scale x hx h hh
+
+/-- `convection_one_alias_free_of_cutoff'` for the documented fraction 2/3 -/
+theorem convection_one_alias_free' (c : Cfg ℂ) (hD : c.D = 1) (hp : c.fp = 2) (hq : c.fq = 3)
+    (hN : 0 < c.N) (scale : ℂ) (x : Array ℂ) (hx : IsRealField c.N x) (h : ℕ) (hh : h ≤ c.N / 2) :
+    at2 (convection c 1 scale true true #[rfftnM 1 c.N x]) 0 h
+      = if (h : ℤ) ≤ Kc c then
+          -scale * (1 / 2) * deriv c 0 h *
+            ((1 / (c.N : ℂ)) * ∑ m ∈ Finset.Icc (-(Kc c)) (Kc c),
+              trunc (Kc c) (dft c.N x) m * trunc (Kc c) (dft c.N x) ((h : ℤ) - m))
+        else 0 :=
+  convection_one_alias_free_of_cutoff' c hD (by omega) (Kc_two_thirds c hp hq).1 hN scale x hx h hh
+
+/-- `polynomial_quadratic_alias_free_of_cutoff` for the documented fraction 2/3 -/
+theorem polynomial_quadratic_alias_free (c : Cfg ℂ) (hD : c.D = 1) (hp : c.fp = 2) (hq : c.fq = 3)
+    (hN : 0 < c.N) (c0 c1 c2 : ℂ) (x : Array ℂ) (hx : IsRealField c.N x) (h : ℕ) (hh : h ≤ c.N / 2) :
+    (mask c h = 1 →
+      at2 (polynomial c 1 [c0, c1, c2] #[rfftnM 1 c.N x]) 0 h
+        = c0 * (if h = 0 then (c.N : ℂ) else 0) + c1 * dft c.N x h
+          + c2 * ((1 / (c.N : ℂ)) * ∑ m ∈ Finset.Icc (-(Kc c)) (Kc c),
+              trunc (Kc c) (dft c.N x) m * trunc (Kc c) (dft c.N x) ((h : ℤ) - m)))
+    ∧ (mask c h = 0 → at2 (polynomial c 1 [c0, c1, c2] #[rfftnM 1 c.N x]) 0 h = 0) :=
+  polynomial_quadratic_alias_free_of_cutoff c hD (by omega) (Kc_two_thirds c hp hq).1 hN c0 c1 c2 x hx h hh
+
+/-- `dft_cube_nifft_rfft_of_cutoff` for the documented fraction 1/2 -/
+theorem dft_cube_nifft_rfft (c : Cfg ℂ) (hD : c.D = 1) (hp : c.fp = 1) (hq : c.fq = 2) (hN : 0 < c.N)
+    (x : Array ℂ) (hx : IsRealField c.N x) (h : ℤ) (hh : |h| ≤ Kc c) :
+    dft c.N (tab c.N fun j => (nifft c (rfftnM 1 c.N x)).getD j 0 * (nifft c (rfftnM 1 c.N x)).getD j 0
+        * (nifft c (rfftnM 1 c.N x)).getD j 0) h
+      = (1 / (c.N : ℂ) ^ 2) * ∑ a ∈ Finset.Icc (-(Kc c)) (Kc c), ∑ b ∈ Finset.Icc (-(Kc c)) (Kc c),
+          trunc (Kc c) (dft c.N x) a * trunc (Kc c) (dft c.N x) b
+            * trunc (Kc c) (dft c.N x) (h - a - b) :=
+  dft_cube_nifft_rfft_of_cutoff c hD (by omega) (Kc_half c hp hq) hN x hx h hh
+
+/-- `polynomial_cubic_alias_free_of_cutoff` for the documented fraction 1/2 -/
+theorem polynomial_cubic_alias_free (c : Cfg ℂ) (hD : c.D = 1) (hp : c.fp = 1) (hq : c.fq = 2)
+    (hN : 0 < c.N) (c3 : ℂ) (x : Array ℂ) (hx : IsRealField c.N x) (h : ℕ) (hh : h ≤ c.N / 2) :
+    (mask c h = 1 →
+      at2 (polynomial c 1 [0, 0, 0, c3] #[rfftnM 1 c.N x]) 0 h
+        = c3 * ((1 / (c.N : ℂ) ^ 2) *
+            ∑ a ∈ Finset.Icc (-(Kc c)) (Kc c), ∑ b ∈ Finset.Icc (-(Kc c)) (Kc c),
+              trunc (Kc c) (dft c.N x) a * trunc (Kc c) (dft c.N x) b
+                * trunc (Kc c) (dft c.N x) ((h : ℤ) - a - b)))
+    ∧ (mask c h = 0 → at2 (polynomial c 1 [0, 0, 0, c3] #[rfftnM 1 c.N x]) 0 h = 0) :=
+  polynomial_cubic_alias_free_of_cutoff c hD (by omega) (Kc_half c hp hq) hN c3 x hx h hh
 
 end Exponax.Alias
